@@ -120,27 +120,38 @@ KINV = ("    invariant lhs_rows < usize::MAX, rhs_rows < usize::MAX, 1 <= lhs_ro
         "      out_rows@ == left_part(mode, lhs_row - 1, rhs_rows as int) + pairs(lhs_row, matched_rhs@, k_ as int),\n"
         "      " + RIGHT % "(any_match(lhs_row - 1, q + 1) || exists|j: int| 0 <= j < k_ && #[trigger] matched_rhs@[j] == q + 1)" + ",")
 KBEFORE = "proof { lemma_matches_of(lhs_row as int, rhs_rows as int); }"
-LOOPS = [
-    # 0: for lhs_row in 1..lhs_rows + 1
-    ("    invariant lhs_rows < usize::MAX, rhs_rows < usize::MAX, rhs_matched@.len() == rhs_rows,\n"
+# invariants are attached by loop HEADER (after the rewrites), not by ordinal: an extra loop over `matched_rhs` in some arm gets the
+# invariant of such a loop (and has to do what such a loop does in a join); a loop with an unknown header is a lost anchor
+LOOP_SPECS = [
+    (r"for\s+lhs_row\s+in\s+1\.\.lhs_rows \+ 1",
+     "    invariant lhs_rows < usize::MAX, rhs_rows < usize::MAX, rhs_matched@.len() == rhs_rows,\n"
      "      out_rows@ == left_part(mode, lhs_row - 1, rhs_rows as int),\n"
-     "      " + RIGHT % "any_match(lhs_row - 1, q + 1)" + ",", ""),
-    # 1: for rhs_row in 1..rhs_rows + 1  (collect the matches of this lhs row)
-    ("    invariant rhs_rows < usize::MAX, matched_rhs@ == matches_of(lhs_row as int, rhs_row - 1),", ""),
-    (KINV, ""), (KINV, ""), (KINV, ""), (KINV, ""),
-    # 6: unmatched rhs rows
-    ("    invariant rhs_rows < usize::MAX, rhs_matched@.len() == rhs_rows, keeps_unmatched_right(mode),\n"
+     "      " + RIGHT % "any_match(lhs_row - 1, q + 1)" + ","),
+    (r"for\s+rhs_row\s+in\s+1\.\.rhs_rows \+ 1\s*\{\s*if\s+rows_match",
+     "    invariant rhs_rows < usize::MAX, matched_rhs@ == matches_of(lhs_row as int, rhs_row - 1),"),
+    (r"for\s+k_\s+in\s+0\.\.matched_rhs\.len\(\)", KINV),
+    (r"for\s+rhs_row\s+in\s+1\.\.rhs_rows \+ 1",
+     "    invariant rhs_rows < usize::MAX, rhs_matched@.len() == rhs_rows, keeps_unmatched_right(mode),\n"
      "      forall|q: int| 0 <= q < rhs_rows ==> #[trigger] rhs_matched@[q] == any_match(lhs_rows as int, q + 1),\n"
-     "      out_rows@ == left_part(mode, lhs_rows as int, rhs_rows as int) + right_part(lhs_rows as int, rhs_row - 1),", ""),
+     "      out_rows@ == left_part(mode, lhs_rows as int, rhs_rows as int) + right_part(lhs_rows as int, rhs_row - 1),"),
 ]
+
+
+def loop_specs(b):
+    specs = []
+    for m in vlib.find_all_code(b, r"\bfor\b"):
+        for pat, inv in LOOP_SPECS:
+            if re.match(pat, b[m.start():]):
+                specs.append((inv, ""))
+                break
+        else:
+            raise AnchorLost("build_joined_table: a loop the contract has no invariant for: `%s`" % b[m.start():m.start() + 60].split("\n")[0])
+    return specs
 
 
 def join_fn(text):
     b = skeleton(text)
-    n = len(vlib.find_all_code(b, r"\bfor\b"))
-    if n != len(LOOPS):
-        raise AnchorLost("build_joined_table: %d loops in the row-selection part, the contract was written for %d" % (n, len(LOOPS)))
-    b = vmat.inject(b, LOOPS)
+    b = vmat.inject(b, loop_specs(b))
     # ghost only: the facts about `matches_of` are needed by every arm of the `match mode`
     b, nm = re.subn(r"match\s+mode\s*\{", KBEFORE + "\n      match mode {", b, count=1)
     if nm != 1:
@@ -182,7 +193,7 @@ def table_solve(text, struct):
     `for (a, b) in ix_brrw.iter().enumerate() {` -> `for a in 0..ix_brrw.len() { let b = ix_brrw.d[a];` and `*b` -> `b`,
     `matrix.index1d(e)` -> `index1d(matrix, e)?`, `out_matrix.set_index1d(a, v.clone())` -> `set_index1d(out_matrix, a, v)?`,
     `out_matrix.resize_vertically(n, Value::Empty)` -> `out_matrix.resize_vertically_mut(n, 0)`,
-    `ix_brrw.iter().filter(|&&b| b).count()` -> `count_true(ix_brrw)`, `out_table.rows = e` -> `*out_rows = e`."""
+    `ix_brrw.iter().filter(|&&b| b).count()` -> `count_true(ix_brrw)`, `out_table.rows = e` -> `*out_rows = e`, `return;` -> `return Some(());`."""
     m = find_code(text, r"impl\s+MechFunctionImpl\s+for\s+%s\s*\{" % struct)
     if not m:
         raise AnchorLost("impl MechFunctionImpl for %s not found" % struct)
@@ -221,6 +232,7 @@ def table_solve(text, struct):
         b = b[:ms.start()] + "set_index1d(out_matrix, %s, %s)?" % (args[0], re.sub(r"\.clone\(\)$", "", args[1])) + b[e:]
     b = re.sub(r"\bout_matrix\.resize_vertically\((\w+),\s*Value::Empty\)", r"out_matrix.resize_vertically_mut(\1, 0)", b)
     b = re.sub(r"\bout_table\.rows\s*=", "*out_rows =", b)
+    b = re.sub(r"\breturn\s*;", "return Some(());", b)       # solve() returns (): a plain return is a normal return
     if re.search(r"\b(self|table|out_table|key|iter)\b", b):
         raise AnchorLost("%s::solve: statements outside the transcription rules" % struct)
     return b, a_, b_
@@ -257,3 +269,49 @@ def table_mask_fn(text):
 def table_unit_text():
     text = vlib.read_repo(TPATH)
     return vlib.verus_file([vmat.model_text(), TMODEL, table_index_fn(text), table_mask_fn(text), vlib.verus_canary("canary_tablerows", "x: u64", [])])
+
+
+# ---------------------------------------------------------------------------------------------------------------------
+# rows_match: "matching on ALL commonly named columns"
+RM_MODEL = """
+pub struct MechTable { pub id: u64 }
+pub uninterp spec fn cellv(t: MechTable, col: u64, row: int) -> Option<u64>;
+// `t.data.get(col).map(|(_, c)| c.index1d(row))`: the cell of column `col` in row `row`, if the table has that column
+#[verifier::external_body]
+pub fn cell(t: &MechTable, col: &u64, row: usize) -> (o: Option<u64>) ensures o == cellv(*t, *col, row as int), { unimplemented!() }
+pub fn opt_eq(a: Option<u64>, b: Option<u64>) -> (r: bool) ensures r == (a == b),
+{ match (a, b) { (Some(x), Some(y)) => x == y, (None, None) => true, _ => false } }
+"""
+
+
+def rows_match_fn(text):
+    """`rows_match` (src/interpreter/src/stdlib/table_ops.rs), whole body: `xs.iter().all(|(a, b)| { stmts; e })` ->
+    `for k_ in 0..xs.len() { let (a, b) = (&xs[k_].0, &xs[k_].1); stmts; if !(e) { return false; } } true` (`.any` -> the dual),
+    `t.data.get(c).map(|(_, col)| col.index1d(r))` -> `cell(t, c, r)`, `x == y` on the two optional cells -> `opt_eq(x, y)`."""
+    sig, body = extract_fn(text, "rows_match")
+    b = re.sub(r"//[^\n]*", "", body).replace("\r", "").strip()[1:-1].strip()
+    m = re.match(r"(\w+)\.iter\(\)\.(all|any)\(\|\((\w+),\s*(\w+)\)\|\s*\{", b)
+    if not m:
+        raise AnchorLost("rows_match: expected `common_cols.iter().all(|(lhs_col, rhs_col)| { .. })`")
+    e = match_brace(b, m.end() - 1)
+    if b[e:].strip() != ")":
+        raise AnchorLost("rows_match: statements after the iterator expression")
+    inner = b[m.end():e - 1]
+    inner = re.sub(r"(\w+)\.data\.get\((\w+)\)\.map\(\|\(_,\s*col\)\|\s*col\.index1d\((\w+)\)\)", r"cell(\1, \2, \3)", inner)
+    parts = [x.strip() for x in vmat._split_top_commas(inner.replace(";", ",")) if x.strip()]   # top-level statements
+    stmts, last = parts[:-1], parts[-1]
+    ml = re.fullmatch(r"(\w+)\s*==\s*(\w+)", last)
+    if not ml or re.search(r"\b(data|iter|map)\b", inner):
+        raise AnchorLost("rows_match: the closure body is outside the transcription rules")
+    test = "opt_eq(%s, %s)" % (ml.group(1), ml.group(2))
+    xs, kind, a_, b_ = m.group(1), m.group(2), m.group(3), m.group(4)
+    EQ = "cellv(*lhs, %s@[%%s].0, lhs_row as int) == cellv(*rhs, %s@[%%s].1, rhs_row as int)" % (xs, xs)
+    if kind == "all":
+        tail = "if !(%s) { return false; }\n  }\n  true" % test
+        inv = "    invariant forall|j: int| 0 <= j < k_ ==> " + EQ % ("j", "j") + ","
+    else:
+        tail = "if %s { return true; }\n  }\n  false" % test
+        inv = "    invariant forall|j: int| 0 <= j < k_ ==> !(" + EQ % ("j", "j") + "),"
+    loop = "  for k_ in 0..%s.len()\n%s\n  {\n    let (%s, %s) = (&%s[k_].0, &%s[k_].1);\n    %s;\n    %s\n" % (xs, inv, a_, b_, xs, xs, ";\n    ".join(stmts), tail)
+    return ("fn rows_match(lhs: &MechTable, lhs_row: usize, rhs: &MechTable, rhs_row: usize, %s: &Vec<(u64, u64)>) -> (res: bool)\n"
+            "  ensures res == (forall|k: int| 0 <= k < %s@.len() ==> %s),\n{\n" % (xs, xs, EQ % ("k", "k")) + loop + "\n}\n")
